@@ -160,18 +160,23 @@ def run(ctx):
                     if len(samples) < 4:
                         samples.append({'symbol': sym, 'kind': kind, 'kw': repr(kw), 'routes': sorted(routes)})
             # terminal vs CLI without output
-            n += 1
-            buf = io.StringIO()
-            q.terminal(out=buf)
-            argv = []
+            argv0 = []
             for k2, v2 in sym.items():
                 if k2 == 'micro':
-                    argv.append('--micro' if v2 else '--no-micro')
+                    argv0.append('--micro' if v2 else '--no-micro')
                 elif k2 != 'content':
-                    argv.append('--%s=%s' % (k2, v2))
-            pr = subprocess.run([sys.executable, '-m', 'segno.cli'] + argv + [sym['content']], capture_output=True, env=dict(os.environ, PYTHONPATH=common.REPO), timeout=60)
-            if pr.stdout.decode('utf-8') != buf.getvalue():
-                failures.append({'input': {'symbol': sym, 'route': 'cli without output'}, 'observed': repr(pr.stdout[:60]), 'expected': repr(buf.getvalue()[:60])})
+                    argv0.append('--%s=%s' % (k2, v2))
+            # border 0 is falsy, the default border is None: both must reach QRCode.terminal unchanged; plain and --compact
+            for tb, tc in ((None, False), (0, False), (1, False), (3, True), (0, True), (None, True)):
+                n += 1
+                buf = io.StringIO()
+                q.terminal(out=buf, border=tb, compact=tc)
+                argv = argv0 + ([] if tb is None else ['--border=%d' % tb]) + (['--compact'] if tc else [])
+                pr = subprocess.run([sys.executable, '-m', 'segno.cli'] + argv + [sym['content']], capture_output=True, env=dict(os.environ, PYTHONPATH=common.REPO), timeout=60)
+                if pr.stdout.decode('utf-8') != buf.getvalue():
+                    failures.append({'input': {'symbol': sym, 'route': 'cli without output', 'border': tb, 'compact': tc},
+                                     'observed': '%d lines: %r' % (pr.stdout.count(b'\n'), pr.stdout[:60]),
+                                     'expected': '%d lines: %r' % (buf.getvalue().count('\n'), buf.getvalue()[:60])})
         # ---- routing model (extracted Gallina Route.build_config / Route.resolve) against cli.build_config / writers.save
         from segno import cli as _cli
 
